@@ -1040,7 +1040,9 @@ func (r *CrashRun) runBackup() (v *Violation) {
 		}
 	}()
 	died := ""
-	if r.Stats["backup_runs"] == 0 {
+	if r.Stats["backup_runs"] == 0 && hooks.sched == nil {
+		// (sequential profile only: under the scheduler the second hub's hook events would be taken for the
+		// writers' own)
 		// what the location looks like if the process dies during this hub's very first run, after the data has
 		// been written: it is this store's location from then on, whether or not the run came to its end
 		prev := hooks.onPoint
